@@ -12,6 +12,23 @@ COMMON_NOTE = ("Trusted: Lean 4.33 kernel; axioms ⊆ {propext, Classical.choice
 
 # id -> (technique, level text, level note extra, design_ref)
 CHECKS = {
+    "C02": ("Lean 4 refinement proof (concrete multi-file reader state → flat byte-array spec), induction over operation "
+            "histories + differential correspondence on real file sets + byte-array oracle",
+            "Theorems step_refines / history_refines: for every file list (incl. empty data sections), every state "
+            "satisfying the invariant and every history of seek/cread/creadinto, outputs and reported stream positions "
+            "equal those of the byte-array model over the concatenated data sections (headers never leak; short read at "
+            "EOS; counted read past the end raises); readBlock_in_range / _out_of_range for read_block. Histories are "
+            "unbounded, which tests enumerate one at a time.",
+            "Hand-written model (Model/Stream.lean) tied to fileio.py by correspondence (random long histories; thorough: "
+            "all histories of length ≤3 on tiny files; all depths). cread is modelled in bytes under the precondition "
+            "that data sections and positions are whole items; np.fromfile/readinto semantics are assumed.", "§5 C02"),
+    "C10": ("Lean 4 proof over ℚ (Mathlib ring/field_simp) of the one-pass recurrence and the Pébay merge + differential "
+            "correspondence (float32 vs exact model, tolerance) + two-pass float64 oracle",
+            "Theorems push_exact (recurrence = two-pass central sums), chunk_independent / partition_irrelevant (every "
+            "partition into chunks), split_merge / merge_chunked (every split point), basic_agrees, constant_channel "
+            "(zero variance/skew, guards), minmax_partition, count_exact — exact over ℚ for streams of any length.",
+            "Float32 rounding (and fastmath) is not modelled: the implementation is compared with the exact model within "
+            "an explicit tolerance; skew is modelled through its square and sign.", "§5 C10"),
     "C01": ("Lean 4 proof by induction over the block list of a hand model of read_plan + differential correspondence "
             "on real multi-file SIGPROC sets + independent concatenation oracle",
             "Theorem plan_covers: for all gulp/start/nsamps/skipback/N the model of the generator either yields nothing "
